@@ -440,8 +440,9 @@ def family_replies(model, fams_params):
     reqs, index = [], []
     for fam, p in fams_params:
         variants = []
-        if fam.get('request_spec'):
-            variants.append(fam['request_spec'](p))
+        spec = fam.get('request_spec') or fam.get('spec_request')
+        if spec:
+            variants.append(spec(p))
         r = fam['request'](p)
         if r not in variants:
             variants.append(r)
